@@ -205,3 +205,85 @@ add("C16", "model_checking",
     "High-temperature overdamped baths for the analytic clause; <=3 sites, depth <=6 for dynamics; "
     "fresh hierarchy per propagation (C15 owns reuse).",
     "DESIGN.md §3 C16")
+add("C02", "model_checking",
+    "exhaustive enumeration of generator x initial-state spanning set x integrator-setting grid "
+    "against expm of an independently built GKSL Liouvillian with a computed truncation bound",
+    "Five complete sub-products (closed systems DM/SV lab frame and RWA; LindbladForm as operators/"
+    "tensor/converted with RWA on/off; Lindblad + Lorentzian/Gaussian pure dephasing; pairwise "
+    "mixtures; TI/TD Redfield as tensor/operators/secular) x dims 2-3 (4) x expansion orders 2,4,6 x "
+    "refinement 1,2,5 x time axes x norm scales; inside every case ALL dim^2 spanning pure states "
+    "(and all pairwise mixtures) are propagated on fresh propagators. Oracles: trace and "
+    "Hermiticity at every stored time (1e-10), positivity and agreement with expm of the reference "
+    "generator within 2x the a-priori bound n*sup||T^k||*sup||E^k||*||T-E||, conservation of norm/"
+    "purity/energy, state-vector vs density-matrix, RWA converted back vs lab frame.",
+    "||H||dt <= 0.5; dim <= 4; field-driven propagation not exercised; for Redfield generators "
+    "only trace and Hermiticity are claimed by the statement.",
+    "DESIGN.md §3 C02")
+add("C07", "model_checking",
+    "exhaustive enumeration of tensor configurations with linearity closure (all matrix units, "
+    "spanning initial states) in three bases, plus analytic pure-dephasing limit",
+    "Full products over Lindblad / Redfield / time-dependent Redfield configurations (sizes, energy "
+    "and coupling patterns, baths, cut-off, routes); inside every point ALL N^2 matrix units are "
+    "applied and N^2 spanning states propagated with the operator form, the 4-index form and the "
+    "form converted by convert_2_tensor (conversion executed in each of the three bases: outside, "
+    "eigenbasis_of(H), eigenbasis_of(X)), each compared in all three bases (1e-10) and against "
+    "independent GKSL / May-Kuhn formulas; TD tensor: data[0]==0 exactly, data[-1]==time-independent "
+    "tensor; uncoupled sites: propagation vs exp(-iwt-g(t)) within a derived first-order bound and "
+    "error ratio >= 1.7 on halving dt.",
+    "Real symmetric basis operators; <= 4 sites; apply() of time-dependent tensors does not exist "
+    "in the package.",
+    "DESIGN.md §3 C07")
+add("C08", "model_checking",
+    "exhaustive enumeration of system x generator x grid x dense-step settings with all index "
+    "pairs, all matrix units and all incremental-step histories",
+    "Cases (system x generator {none, Lindblad variants in tensor/operator form, Redfield of built "
+    "aggregates} x step x Nt); inside each: dense settings {1,2,5,50} and their doubles, modes "
+    "'all' and 'jit', every prefix k<=Nt-1 of calculate_next histories for both save flags and the "
+    "prefix tree of mixed-flag words, U(0)=1 exactly, semigroup law for ALL index pairs in both "
+    "orders, trace preservation and Hermiticity at every time, U(t_i) applied to ALL matrix units vs "
+    "direct propagation (rounding level when dense steps match, computed truncation bound "
+    "otherwise), jit vs all, dense N vs 2N, absolute comparison with the Taylor polynomial and "
+    "expm of an independent Liouvillian, all calling forms of apply()/at(t).",
+    "dim <= 4, Nt <= 9; time axes starting at 0; at() without a time is not an observation the "
+    "property speaks about.",
+    "DESIGN.md §3 C08")
+add("C11", "model_checking",
+    "exhaustive enumeration of system x geometry grid with all relabellings, cube rotations and "
+    "scale factors against a direct Fourier sum of the dipole correlation function",
+    "Five complete products (molecule, aggregate without tensor, with static secular Redfield "
+    "tensor, with time-dependent tensor, from-dynamics route); inside each point the 23 cube "
+    "rotations + generic ones, all N! relabellings, scale factors, the uncoupled partner. Oracles: "
+    "direct half-sided Fourier sum evaluated at the returned axis points (1e-8 peak), k^2 scaling, "
+    "rotation and relabelling invariance (1e-10), integral per sum|d|^2 independent of coupling "
+    "(5e-3), inputs unchanged and second call identical. The known two-point displacement is "
+    "recognised ONLY when the data equal the reference on the grid hfft really samples, displaced "
+    "by exactly +2 (1e-10); any other disagreement is reported as fourier/mismatch.",
+    "KNOWN FINDING: every spectrum is displaced by two grid points (see known_findings.json). "
+    "N <= 3, overdamped baths; behaviour when calculate() raises is not part of the property "
+    "(no fault quantifier) and is not reported.",
+    "DESIGN.md §3 C11")
+add("C12", "model_checking",
+    "exhaustive enumeration of polarisation and dipole four-tuples against an exact SO(3) "
+    "quadrature, and of a system grid for additivity/symmetry clauses",
+    "All 5^4 polarisation four-tuples x all 4^4 dipole four-tuples x interaction-side patterns on "
+    "real liouville_pathway objects vs a 75-rotation product quadrature that is exact for the "
+    "degree-4 integrand (independent of the M4 formula); system grid (dimers/trimers, mult 2, J, "
+    "widths, waiting time, line shape, excited-state dynamics) through the real mock calculator: "
+    "prefactor of every generated pathway for all 625 polarisation settings, invariance under 24 "
+    "cube rotations + generic of dipoles and of polarisations, k^4 scaling, total = rephasing + "
+    "non-rephasing and pathway ledger, uncoupled aggregate = sum of separately built monomers.",
+    "MockTwoDResponseCalculator only (aceto absent); <= 3 molecules without modes.",
+    "DESIGN.md §3 C12")
+add("C18", "model_checking",
+    "exhaustive format x dtype x shape x axis matrix and exhaustive enumeration of save/load "
+    "histories under unit and basis contexts with a twin-world oracle",
+    "G: {DFunction, AbsSpectrum, TwoDResponse, DensityMatrixEvolution} x {.dat,.txt,.npy,.npz,.mat} "
+    "x data flavours x shapes x {with, without axis}, loaded into a different object, per-entry "
+    "comparison. H: all histories pre(<=2 contexts)[touch] save mid(<=1 quick / <=3 thorough "
+    "enter/exit ops) load read(here | +1 context | after exiting all) with contexts "
+    "{energy_units(1/cm|eV), eigenbasis_of(H), eigenbasis_of(A)} for 16 saveable classes x 5 routes "
+    "(save/load by name and file object, save_parcel/load_parcel, scopy, savedir/loaddir); oracle: "
+    "the same history on identically built objects that are never saved must give the same "
+    "observables.",
+    "dill/numpy/scipy containers trusted; single-row/column arrays outside the grid; nesting <= 2.",
+    "DESIGN.md §3 C18")
